@@ -3,6 +3,7 @@ package simkit
 import (
 	"fmt"
 	"sort"
+	"strings"
 	"sync"
 )
 
@@ -78,6 +79,21 @@ func (s *Sched) Release(g *Gate) {
 	s.Passed++
 	s.mu.Unlock()
 	close(g.ch)
+}
+
+// ResetOwner forgets the arrival counters of owner a. A server that is being
+// stopped races its goroutines through selects on the quit channel, so how
+// many of them pass one more Yield is the runtime's choice; the next server
+// started for the same node starts counting from one again.
+func (s *Sched) ResetOwner(a int) {
+	s.mu.Lock()
+	defer s.mu.Unlock()
+	prefix := fmt.Sprintf("%d/", a)
+	for k := range s.counter {
+		if strings.HasPrefix(k, prefix) {
+			delete(s.counter, k)
+		}
+	}
 }
 
 // Off turns gating off and releases everything (used at shutdown).
